@@ -12,6 +12,10 @@ class Facts:
         self.aliases = {}
         self.unwrapped_newtypes = []
         if reference is not None:
+            from .normalize import redirect_into
+            if redirect_into(self.raw):
+                text = json.dumps(self.raw)
+        if reference is not None:
             from .normalize import unwrap_newtypes
             t2, un = unwrap_newtypes(self.raw, reference, self.raw["crate"])
             if t2 is not None:
